@@ -1075,6 +1075,91 @@ func c01Crash(c *Ctx, idx int) CaseResult {
 	return res
 }
 
+// ---------- C04 under recovery: what Wait returns in the process that resumed the plan ----------
+
+// crashPreContPlan: a scope whose pre-checks fail (or pass slowly) while the first run of its continuous checks,
+// started next to them, is still executing - at block level, plan level or both.
+func crashPreContPlan(r *rand.Rand) spec.Plan {
+	p := spec.Plan{Name: "p0"}
+	grp := func(ok bool, lo, hi int) *spec.Checks {
+		return &spec.Checks{DelayUS: 300 + r.Intn(500), Actions: []spec.Action{{Steps: step(ok, lo+r.Intn(hi-lo+1)), Retries: r.Intn(2)}}}
+	}
+	blk := spec.Block{Conc: 1 + r.Intn(2), Tol: 0}
+	for si := 0; si < 1+r.Intn(2); si++ {
+		blk.Seqs = append(blk.Seqs, spec.Seq{Actions: []spec.Action{{Steps: step(true, 300+r.Intn(600))}}})
+	}
+	switch r.Intn(3) {
+	case 0: // block pre fails fast, block cont slow
+		blk.Pre = grp(false, 50, 300)
+		blk.Cont = grp(true, 900, 2500)
+	case 1: // plan pre fails fast, plan cont slow
+		p.Pre = grp(false, 50, 300)
+		p.Cont = grp(true, 900, 2500)
+	case 2: // block pre slow and passing, block cont fails fast
+		blk.Pre = grp(true, 900, 2500)
+		blk.Cont = grp(false, 50, 300)
+	}
+	if r.Intn(2) == 0 {
+		blk.Deferred = grp(true, 50, 400)
+	}
+	if r.Intn(2) == 0 {
+		p.Deferred = grp(true, 50, 400)
+	}
+	if r.Intn(3) == 0 {
+		blk.Post = grp(true, 50, 300)
+	}
+	p.Blocks = append(p.Blocks, blk)
+	if r.Intn(2) == 0 {
+		p.Blocks = append(p.Blocks, spec.Block{Conc: 1, Tol: 0, Seqs: []spec.Seq{{Actions: []spec.Action{{Steps: step(true, 300)}}}}})
+	}
+	p.AssignTags()
+	return p
+}
+
+// c04Crash explores every crash point of a plan with failing stages and applies the C04 consistency rules to the
+// plan that Wait returns in the process that resumed it (a resumed plan is a started plan being waited on).
+func c04Crash(c *Ctx, idx int) CaseResult {
+	res := CaseResult{Counters: map[string]int{}}
+	r := gen.Rand(c.Seed, "C04crash", idx)
+	var ps spec.Plan
+	var src string
+	switch (idx / 25) % 3 {
+	case 0:
+		ps, src = crashPreContPlan(r), "pre-checks next to the first continuous run"
+	case 1:
+		ps, src = crashBusyPlan(r), "failure while sequences are executing"
+	default:
+		ps, src = crashRandPlan(r), "random"
+	}
+	var first any
+	cp := exploreCrashes(&ps, r, 1<<30, &res, func(sk *spec.PlanView, rec *crash.Recovery, t *oracle.Trace, second bool, k, j int) {
+		if rec == nil || !rec.Returned || rec.Final == nil || sk.Status("P") != spec.Running {
+			return
+		}
+		res.Counters["recovered_waits"]++
+		vs := oracle.Consistency("C04", &ps, t, rec.Final, false)
+		for i := range vs {
+			vs[i].Sig = strings.Replace(vs[i].Sig, "C04/", "C04/recovered/", 1)
+			vs[i].Msg = "[plan resumed after a crash at write " + fmt.Sprint(k) + "] " + vs[i].Msg
+		}
+		if len(vs) > 0 && first == nil {
+			first = map[string]any{"k": k, "durable_state": describeSk(sk), "final": rec.Final, "recovery_events": rec.Events}
+		}
+		res.Viols = append(res.Viols, vs...)
+	})
+	if cp != nil {
+		res.Nontriv = hashStr(fmt.Sprint("crash", ps))
+		res.ISig = res.Nontriv
+		if idx%100 == 24 {
+			res.Sample = map[string]any{"mode": "consistency of the plan Wait returns in the process that resumed it, every crash point", "source": src, "plan": ps, "writes": cp.NW}
+		}
+	}
+	if len(res.Viols) > 0 {
+		res.Witness = map[string]any{"plan": ps, "first": first}
+	}
+	return res
+}
+
 // ---------- C05 under recovery: the call budget and the attempt record across a crash ----------
 
 func c05Crash(c *Ctx, idx int) CaseResult {
